@@ -478,6 +478,7 @@ func gen(c *ex.Ctx) {
 	wantBody2 := []string{"p.emit(C0(0x1B))", "p.mu.Lock()", "p.state = ground", "p.ignoreST = false", "p.mu.Unlock()"}
 	wantBody3 := []string{"p.mu.Lock()", "defer p.mu.Unlock()", "if p.escGen != gen { return }", "p.emit(C0(0x1B))", "p.state = ground", "p.ignoreST = false"}
 	clears, guarded := "", "false"
+	cbUnknown := false
 	switch strings.Join(timerBody, "|") {
 	case strings.Join(wantBody, "|"):
 		clears = "false"
@@ -486,12 +487,15 @@ func gen(c *ex.Ctx) {
 	case strings.Join(wantBody3, "|"):
 		clears, guarded = "true", "true"
 	default:
-		c.Fail("anywhere: timer callback body is %q; the model knows %q, %q and %q", timerBody, wantBody, wantBody2, wantBody3)
-		return
+		// An unrecognised callback is not an extraction failure (the drivers must still build so that the
+		// harnesses can look for a failing input): the model keeps the guarded callback, and the flag
+		// `runLoopRecognised`, which `gen_lifecycle_constants` requires, is cleared; Gen/ParserRun.lean
+		// lists the statements (`run_skeleton_recognised`).
+		clears, guarded = "true", "true"
+		cbUnknown = true
 	}
-	if (guarded == "true") != sawGenCapture {
-		c.Fail("anywhere: `gen := p.escGen` and the generation check in the timer callback must come together")
-		return
+	if !cbUnknown && (guarded == "true") != sawGenCapture {
+		cbUnknown = true
 	}
 	// run(): the generation is bumped under the mutex before every transition and before EOF
 	rf := ex.FindFunc(f, "Parser", "run")
@@ -518,6 +522,9 @@ func gen(c *ex.Ctx) {
 		runKnown = "false"
 	}
 	if guarded == "false" && (bumpLoop || bumpEnd || strings.Contains(runSrc, "escGen")) {
+		runKnown = "false"
+	}
+	if cbUnknown {
 		runKnown = "false"
 	}
 	fmt.Fprintf(&sb, "/-- Parser.run has the shape the model knows (read; lock; [escGen++;] anywhere; … [lock; escGen++; unlock;] emit(EOF); close; closed<-true), consistent with the timer callback -/\ndef runLoopRecognised : Bool := %s\n\n", runKnown)
